@@ -25,10 +25,16 @@ pub fn make(spec: &JobSpec, ex: &mut Executor, out: &mut JobResult) -> Option<Bo
             j.cases.retain(|c| format!("C06 errors {}", c.name) == label);
             Some(Box::new(j))
         }
+        "single" if spec.params.get("scenario").and_then(|s| s.get("label")).and_then(|l| l.as_str()).map_or(false, |l| l.starts_with("C06 doc-errors ")) => {
+            let sc: Scenario = serde_json::from_value(spec.params["scenario"].clone()).ok()?;
+            let n: usize = sc.label.rsplit("arg").next().and_then(|x| x.parse().ok()).unwrap_or(1);
+            Some(Box::new(DocErrorsJob { cases: vec![(sc.label.trim_start_matches("C06 doc-errors ").to_string(), sc.program.clone(), n)] }))
+        }
         "single" if spec.params.get("scenario").and_then(|s| s.get("label")).and_then(|l| l.as_str()).map_or(false, |l| l.starts_with("C06 callback-errors")) => {
             Some(Box::new(CallbackErrorsJob::new()))
         }
-        "carrier" | "corpus" | "single" => SweepJob::new(spec, ex, out).map(|j| Box::new(j) as Box<dyn Job>),
+        "carrier" | "doc-carrier" | "corpus" | "single" => SweepJob::new(spec, ex, out).map(|j| Box::new(j) as Box<dyn Job>),
+        "doc-errors" => Some(Box::new(DocErrorsJob::new(spec))),
         "errors" => Some(Box::new(ErrorsJob::new())),
         "callback-errors" => Some(Box::new(CallbackErrorsJob::new())),
         k => {
@@ -64,7 +70,15 @@ struct SweepJob {
 impl SweepJob {
     fn new(spec: &JobSpec, ex: &mut Executor, out: &mut JobResult) -> Option<Self> {
         let single = spec.kind == "single";
-        let mut sc = if spec.kind == "carrier" {
+        let mut sc = if spec.kind == "doc-carrier" {
+            let idx = spec.params.get("index")?.as_u64()? as usize;
+            let (calls, _, _) = crate::docsig::calls();
+            let c = calls.get(idx)?;
+            let mut sc = Scenario::standard(&crate::docsig::program(&c.call), Limits::calibration());
+            sc.perms = [Some(true); 6];
+            sc.label = format!("C06 {}", c.label);
+            sc
+        } else if spec.kind == "carrier" {
             let ci = spec.params.get("carrier")?.as_u64()? as usize;
             let ki = spec.params.get("catcher")?.as_u64()? as usize;
             let (label, text) = carriers::program(ci, ki)?;
@@ -379,5 +393,72 @@ impl Job for CallbackErrorsJob {
                 out.probe("callback_error_cases");
             }
         }
+    }
+}
+
+
+// ------------------------------------------------------------------ error arguments into every documented function
+
+struct DocErrorsJob {
+    cases: Vec<(String, String, usize)>,
+}
+
+impl DocErrorsJob {
+    fn new(spec: &JobSpec) -> Self {
+        let (calls, _, _) = crate::docsig::calls();
+        let part = spec.params.get("part").and_then(|v| v.as_u64()).unwrap_or(0) as usize;
+        let parts = spec.params.get("parts").and_then(|v| v.as_u64()).unwrap_or(1) as usize;
+        let mut cases = vec![];
+        for (ci, c) in calls.iter().enumerate() {
+            if ci % parts != part || crate::docsig::ERROR_HANDLERS.contains(&c.name.as_str()) {
+                continue;
+            }
+            for i in 0..c.args.len() {
+                let mut args = c.args.clone();
+                args[i] = format!("if(false, {}, error(\"E{}\"))", c.args[i], i + 1);
+                let call = format!("{}({})", c.name, args.join(", "));
+                let text = format!("{}\nfn main()->str{{ get_error({call}).or(\"<value>\") }}\n", crate::docsig::PRELUDE);
+                cases.push((format!("{} arg{}", c.label, i + 1), text, i + 1));
+            }
+        }
+        DocErrorsJob { cases }
+    }
+}
+
+impl Job for DocErrorsJob {
+    fn len(&self) -> usize {
+        self.cases.len()
+    }
+    fn scenario(&mut self, i: usize) -> Scenario {
+        let mut sc = Scenario::standard(&self.cases[i].1, Limits::calibration());
+        sc.perms = [Some(true); 6];
+        sc.limits.search = Some(100_000);
+        sc.limits.ud_call = Some(200_000);
+        sc.label = format!("C06 doc-errors {}", self.cases[i].0);
+        sc
+    }
+    fn judge(&mut self, i: usize, sc: &Scenario, r: Exec, out: &mut JobResult) {
+        let r = match r {
+            Exec::Run(r) => r,
+            Exec::CompileError(_) => {
+                out.count("doc_error_cases_rejected_by_compiler", 1);
+                return;
+            }
+            Exec::CompilePanic(m) => {
+                out.violate(violation(P, P, ("crash".into(), crash_signature(&m), m.clone()), sc));
+                return;
+            }
+        };
+        out.absorb_run(&r);
+        for f in o_crash(&r) {
+            out.violate(violation(P, P, f, sc));
+        }
+        let want = Outcome::Value(format!("\"E{}\"", self.cases[i].2));
+        if *r.main_outcome() != want {
+            let name = self.cases[i].0.split(':').nth(2).unwrap_or("").split('#').next().unwrap_or("").to_string();
+            out.violate(violation(P, P, ("errors".into(), format!("documented function {name}: error argument {} does not become the result", self.cases[i].2), format!("{}: got {:?}", self.cases[i].0, r.main_outcome())), sc));
+        }
+        out.tuples.insert(format!("doc-error|{}", self.cases[i].0));
+        out.probe("doc_error_cases");
     }
 }
